@@ -15,7 +15,7 @@ FLAVOURS = ["rel"]
 TARGETS = ["llbuild", "vtool"]
 RULE = ("Hypothesis generates a Ninja manifest over the deterministic `vtool` (explicit / implicit / order-only "
         "inputs, multiple outputs, phony aliases, depfile + deps=gcc with '#include'-discovered sources, restat, "
-        "pools, rspfile) and a history of source edits, output deletions, manifest edits (command line changed, "
+        "generator edges (whose command line is never edited), pools, rspfile) and a history of source edits, output deletions, manifest edits (command line changed, "
         "edge added / removed, explicit input re-wired) and injected command failures, each followed by "
         "`llbuild ninja build` in a NEW process, -j1 or -j4, with build.db or --no-db; all mtimes come from the "
         "logical clock shared with vtool, so an edited source is always newer than existing outputs. Oracles: after "
@@ -69,6 +69,9 @@ def manifest(draw):
              "restat": draw(st.integers(0, 4)) == 0,
              "pool": draw(st.integers(0, 5)) == 0,
              "rsp": draw(st.integers(0, 6)) == 0}
+        # generator = 1: identical to an ordinary edge except that a changed command line does not re-run it,
+        # so the manifest edits below never change a generator edge's command line
+        e["gen"] = not (e["depfile"] or e["restat"] or e["rsp"]) and draw(st.integers(0, 5)) == 0
         edges.append(e)
         avail += outs
     aliases = []
@@ -97,8 +100,8 @@ def case(draw):
             ops.append({"op": "write", "path": s, "text": body})
         elif k == "delete-out" and outs:
             ops.append({"op": "delete", "path": draw(st.sampled_from(outs))})
-        elif k == "salt" and cur["edges"]:
-            e = draw(st.sampled_from(cur["edges"]))
+        elif k == "salt" and [e for e in cur["edges"] if not e.get("gen")]:
+            e = draw(st.sampled_from([e for e in cur["edges"] if not e.get("gen")]))
             e["salt"] = "n%d" % draw(st.integers(0, 5))
             ops.append({"op": "manifest", "edit": {"k": "salt", "edge": e["name"], "salt": e["salt"]}})
         elif k == "add-edge":
@@ -115,8 +118,8 @@ def case(draw):
             for a in cur["aliases"]:
                 a["ins"] = [i for i in a["ins"] if i not in e["outs"]] or a["ins"][:0]
             ops.append({"op": "manifest", "edit": {"k": "remove", "edge": e["name"]}})
-        elif k == "rewire" and cur["edges"]:
-            e = draw(st.sampled_from(cur["edges"]))
+        elif k == "rewire" and [e for e in cur["edges"] if not e.get("gen")]:
+            e = draw(st.sampled_from([e for e in cur["edges"] if not e.get("gen")]))
             idx = cur["edges"].index(e)
             before = srcs + [o for d in cur["edges"][:idx] for o in d["outs"]]
             cand = [x for x in before if x not in e["ins"] + e["implicit"] + e["orderonly"] + e["outs"]]
@@ -161,11 +164,13 @@ def write_manifest(ws, m):
          "rule run_dep", "  command = $cmd", "  depfile = $dfile", "  deps = gcc",
          "rule run_restat", "  command = $cmd", "  restat = 1",
          "rule run_rsp", "  command = $cmd", "  rspfile = $out.rsp", "  rspfile_content = $in",
+         "rule run_gen", "  command = $cmd", "  generator = 1",
          "pool slow", "  depth = 1", ""]
     desc = to_desc(m)
     byname = {c["name"]: c for c in desc["commands"]}
     for e in m["edges"]:
-        rule = "run_dep" if e["depfile"] else "run_restat" if e["restat"] else "run_rsp" if e["rsp"] else "run"
+        rule = ("run_dep" if e["depfile"] else "run_restat" if e["restat"] else "run_rsp" if e["rsp"]
+                else "run_gen" if e.get("gen") else "run")
         line = "build %s: %s %s" % (" ".join(e["outs"]), rule, " ".join(e["ins"]))
         if e["implicit"]:
             line += " | " + " ".join(e["implicit"])
@@ -358,6 +363,8 @@ def run_case(case, ctx, verbose=False):
             cls.append("order-only")
         if any(e["restat"] for e in m["edges"]):
             cls.append("restat")
+        if any(e.get("gen") for e in m["edges"]):
+            cls.append("generator")
         if any(e["depfile"] for e in m["edges"]):
             cls.append("depfile")
         return Outcome(None, nontrivial=nt, classes=sorted(set(cls)))
